@@ -104,7 +104,7 @@ theorem freeRung_ids (size level : Nat) : (freeRung size level).ids = [] := by
   unfold Rung.ids freeRung
   induction size with
   | zero => rfl
-  | succ n ih => simpa [List.replicate_succ] using ih
+  | succ n ih => simp [List.replicate_succ]
 
 theorem mkBracket_wf (mode : Mode) (spec : List (Nat × Nat)) (h : checkRungs spec = true) :
     ∃ b, mkBracket .hyperband mode spec = .ok b ∧ BWF spec b ∧ b.mode = mode ∧ b.HasFree ∧
